@@ -3392,6 +3392,18 @@ let snapshot_entity s e =
      | None -> None)
   | None -> None
 
+(** val world_view : w -> z list **)
+
+let world_view s =
+  flat_map (fun a ->
+    flat_map (fun tid ->
+      match nth_error s.w_tables tid with
+      | Some t ->
+        flat_map (fun row ->
+          app (zent (nth row t.t_ents zero_ent))
+            ((zn (length t.t_ids)) :: (snapshot_row t row))) (seq O t.t_len)
+      | None -> []) a.a_tables) s.w_archs
+
 (** val log : z list -> unit mW **)
 
 let log l =
@@ -3426,8 +3438,8 @@ let run_callback oi e =
                 (app ((Zpos (XO (XO (XI (XO (XO (XI
                   XH))))))) :: ((zn oi) :: []))
                   (app (zent e)
-                    (app ((zb locked) :: ((zb al) :: ((zn cnt) :: []))) snap))))
-              (fun _ ->
+                    (app ((zb locked) :: ((zb al) :: ((zn cnt) :: [])))
+                      (app snap (world_view s1)))))) (fun _ ->
               bind (getO oi) (fun o ->
                 match o.o_cb with
                 | O -> ret ()
@@ -4637,35 +4649,65 @@ let w_exchange_batch fi brels add0 rem rels vals =
                                         es true))))))))))))))) (fun _ ->
           unlockM l))))
 
-(** val set_relations_table : nat -> nat -> rel list -> unit mW **)
+(** val set_relations_plan :
+    nat -> rel list -> (((nat * nat) * nat) * mask0) option mW **)
 
-let set_relations_table otid old_len rels =
+let set_relations_plan otid rels =
   bind (getT otid) (fun ot ->
-    bind (exchange_targets ot rels) (fun r ->
-      match r with
-      | Some p0 ->
-        let (newrels, cm) = p0 in
-        bind (get_or_create_table ot.t_arch newrels) (fun ntid ->
-          bind (arch_mask_of_table ntid) (fun nm ->
-            bind get (fun s ->
-              bind
-                (whenM (has_obs s evRemoveRelations)
-                  (bind (getT otid) (fun ot0 ->
-                    fire_rows (fun e eo ->
-                      fire_set evRemoveRelations e cm nm eo)
-                      (firstn ot0.t_len ot0.t_ents) true))) (fun _ ->
-                bind (getT ntid) (fun nt ->
-                  let start = nt.t_len in
-                  bind (move_entities otid ntid old_len) (fun _ ->
-                    bind
-                      (forM_ (seq start old_len) (fun i ->
-                        batch_callback ntid [] i)) (fun _ ->
-                      bind get (fun s0 ->
-                        whenM (has_obs s0 evAddRelations)
-                          (bind (rows_of ntid start old_len) (fun es ->
-                            fire_rows (fun e eo ->
-                              fire_set evAddRelations e cm nm eo) es true))))))))))
-      | None -> ret ()))
+    if Nat.eqb ot.t_len O
+    then ret None
+    else bind (exchange_targets ot rels) (fun r ->
+           match r with
+           | Some p0 ->
+             let (newrels, cm) = p0 in
+             bind (get_or_create_table ot.t_arch newrels) (fun ntid ->
+               ret (Some (((otid, ntid), ot.t_len), cm)))
+           | None -> ret None))
+
+(** val opt_list : 'a1 option list -> 'a1 list **)
+
+let opt_list l =
+  flat_map (fun o -> match o with
+                     | Some a -> a :: []
+                     | None -> []) l
+
+(** val set_relations_fire_removes :
+    (((nat * nat) * nat) * mask0) list -> unit mW **)
+
+let set_relations_fire_removes plans =
+  forM_ plans (fun p0 ->
+    let (p1, cm) = p0 in
+    let (p2, len) = p1 in
+    let (otid, ntid) = p2 in
+    bind (getT otid) (fun ot ->
+      bind (arch_mask_of_table ntid) (fun nm ->
+        fire_rows (fun e eo -> fire_set evRemoveRelations e cm nm eo)
+          (firstn len ot.t_ents) true)))
+
+(** val set_relations_move :
+    (((nat * nat) * nat) * mask0) -> (((nat * nat) * nat) * mask0) mW **)
+
+let set_relations_move = function
+| (p1, cm) ->
+  let (p2, len) = p1 in
+  let (otid, ntid) = p2 in
+  bind (getT ntid) (fun nt ->
+    let start = nt.t_len in
+    bind (move_entities otid ntid len) (fun _ ->
+      bind (forM_ (seq start len) (fun i -> batch_callback ntid [] i))
+        (fun _ -> ret (((ntid, start), len), cm))))
+
+(** val set_relations_fire_adds :
+    (((nat * nat) * nat) * mask0) list -> unit mW **)
+
+let set_relations_fire_adds moved =
+  forM_ moved (fun m0 ->
+    let (p0, cm) = m0 in
+    let (p1, len) = p0 in
+    let (ntid, start) = p1 in
+    bind (arch_mask_of_table ntid) (fun nm ->
+      bind (rows_of ntid start len) (fun es ->
+        fire_rows (fun e eo -> fire_set evAddRelations e cm nm eo) es true)))
 
 (** val w_set_relations_batch : nat -> rel list -> rel list -> unit mW **)
 
@@ -4675,17 +4717,19 @@ let w_set_relations_batch fi brels rels =
       bind lockM (fun l ->
         bind
           (with_deferred_unlock l
-            (bind (get_batch_tables fi brels) (fun tables ->
-              bind
-                (mapM tables (fun tid ->
-                  bind (getT tid) (fun t -> ret (tid, t.t_len))))
-                (fun lens ->
-                bind
-                  (forM_ lens (fun tl ->
-                    if Nat.eqb (snd tl) O
-                    then ret ()
-                    else set_relations_table (fst tl) (snd tl) rels))
-                  (fun _ -> register_targets rels))))) (fun _ -> unlockM l))))
+            (bind get (fun s0 ->
+              let has_rem = has_obs s0 evRemoveRelations in
+              let has_add = has_obs s0 evAddRelations in
+              bind (get_batch_tables fi brels) (fun tables ->
+                bind (mapM tables (fun tid -> set_relations_plan tid rels))
+                  (fun plans ->
+                  let plans0 = opt_list plans in
+                  bind (whenM has_rem (set_relations_fire_removes plans0))
+                    (fun _ ->
+                    bind (mapM plans0 set_relations_move) (fun moved ->
+                      bind (whenM has_add (set_relations_fire_adds moved))
+                        (fun _ -> register_targets rels)))))))) (fun _ ->
+          unlockM l))))
 
 (** val arch_reset : nat -> unit mW **)
 
